@@ -162,7 +162,12 @@ fn gen_path(r: &mut Sm) -> String {
     fn raw_id(r: &mut Sm, n: usize) -> String {
         let mut s = String::new();
         for _ in 0..n {
-            let c = r.pick(&['a', 'Z', '0', '-', '.', '~', '\u{e9}', '\u{ff}', '%']);
+            // every raw character an identifier may be sent with: each printable ASCII character except the
+            // separators, and Latin-1 ones; '%' starts an escape
+            let c = if r.chance(45) {
+                let all: Vec<char> = (0x21u8..0x7f).map(|b| b as char).filter(|c| !['&', '=', '#', '%'].contains(c)).collect();
+                all[r.below(all.len() as u64) as usize]
+            } else { r.pick(&['a', 'Z', '0', '-', '.', '~', '+', '*', '\u{e9}', '\u{ff}', '\u{a0}', '%', '%']) };
             if c == '%' { s.push('%'); s.push(r.pick(&['4', 'a', 'F', 'g'])); s.push(r.pick(&['1', 'b', 'C', ' '])); } else { s.push(c); }
         }
         s
